@@ -799,6 +799,10 @@ func c04ExprCompare(w *W, shown string, in []byte, stmt ast.Statement, col ast.E
 	}
 	w.Count(pfx + ":root:" + kind)
 	if strings.Join(impl, "\n") != strings.Join(model, "\n") {
+		// a real violation wins over a mere disagreement: if the verified monitor rejects the real text, that is the finding
+		if plain && !treeCheck(w, shown, ex.Out, "expression core (the model disagrees as well: "+xeFirstDiff(impl, model)+")") {
+			return enc, impl, false
+		}
 		w.stats.Disagree++
 		w.Report(Finding{Kind: "model", Key: "model@" + pfx + "@" + kind, Input: shown, InputHex: hexs(in),
 			Detail:       fmt.Sprintf("%s\nencoding %s\nEXPLAIN\n%s\nmodel\n%s", xeFirstDiff(impl, model), trunc(strings.Join(enc.toks, " "), 800), strings.Join(impl, "\n"), strings.Join(model, "\n")),
